@@ -497,13 +497,20 @@ def gen_iter_scripts(tier, seed, variant):
                 if k % 4 == 0 and not l.startswith(("extractif", "A extractif", "B extractif")):
                     res.append(ins())
         out.append("\n".join(res) + "\n")
+    # tombstones in groups beyond the iterator's first group (collision runs), and sparse tables
+    # with entirely EMPTY groups between occupied ones -- both with fold / clone / owning iterators
+    for i in range(n // 2):
+        out.append(gen_map.make_run_script(rng, f"iu{seed}_{i}"))
+        out.append(gen_map.make_sparse_script(rng, f"is{seed}_{i}"))
+    for i in range(n // 4):
+        out.append(gen_table.make_run_script(rng, f"iv{seed}_{i}"))
     return "".join(out)
 
 def check_c09(run):
     return script_property(
         run, gen_iter_scripts,
-        relevant=lambda f: f.kind == "CRASH" or (f.kind in ("A-FAIL", "H-FAIL") and (op_in(f, ("iter", "titer", "drain", "tdrain", "into_par")) or any(k in f.text for k in ("iter", "size_hint", "yields", "keys()/values()", "drain.len")))),
-        rule="HashMap / HashSet / HashTable histories (all hash-plan classes, drop and no-drop elements, several element layouts) with an iterator operation after every fourth step: iter (next until None, then twice more; len() and size_hint() checked against the true remaining count at every step; keys/values/values_mut/iter_mut must agree), iterfold p (p calls of next, a clone taken, then fold: fold and the clone must continue with the same elements), drain n; the visited sequence must equal the extracted model's (level C) and the reference contents as a multiset (level A)")
+        relevant=lambda f: f.kind == "CRASH" or (f.kind in ("A-FAIL", "H-FAIL") and (op_in(f, ("iter", "titer", "drain", "tdrain", "into", "tinto")) or any(k in f.text for k in ("iter", "size_hint", "yields", "keys()/values()", "drain.len")))),
+        rule="HashMap / HashSet / HashTable histories (all hash-plan classes, drop and no-drop elements, several element layouts) with an iterator operation after every fourth step: iter (next until None, then twice more; len() and size_hint() checked against the true remaining count at every step; keys/values/values_mut/iter_mut must agree), iterfold p (p calls of next, a clone taken, then fold: fold and the clone must continue with the same elements), drain n, into_iter n (len/size_hint at every step, rest dropped by the iterator), into_keys / into_values (next x n then fold); plus collision-run scripts (tombstones in groups beyond the first) and sparse tables of 64..512 buckets with whole EMPTY groups between occupied ones; the visited sequence must equal the extracted model's (level C) and the reference contents as a multiset (level A)")
 
 def gen_serde_scripts(tier, seed, variant):
     rng = random.Random(seed)
@@ -656,11 +663,24 @@ def check_c02(run):
         rule="safe-API histories over HashMap (two element flavours) and HashTable with element sizes 0, 1, 2, 24, 32, 200 and alignment up to 64 (> group width), lawful and call-dependent hashers, all hash-plan classes; the harness allocator puts red zones around every block and poisons fresh / freed memory, checks the layout of every request and release, the alignment of the control bytes and of every element slot and that every slot lies inside the block; iterators, drains, extract_if and entries are leaked with mem::forget part-way (the collection must stay valid: empty singleton after a leaked drain / into_iter, unchanged after a leaked entry); every dumped state must satisfy SafeWF (counters = number of FULL bytes, mirror bytes, at least one EMPTY byte ...) via the extracted wf_check; debug assertions of the library are enabled (debug profile) and count as findings",
         partial_note="Coq cannot exhibit undefined behaviour of compiled Rust (aliasing/provenance, validity of reads, the intrinsics); what is proved is the index / initialisation / ownership discipline: the model's checked primitives never fire (map_step_safe) and SafeWF is preserved for every operation and every hasher")
 
+def gen_release_fault_scripts(tier, seed, variant):
+    """C03: interrupted operations must not lose objects either: Clone panics inside clone /
+    clone_from (the unwind guard owns the clones made so far), hasher panics inside rehash / resize
+    (the guards own the unprocessed elements / the new block), refused allocations.  Destructor
+    panics are NOT armed here (they may legitimately leak)."""
+    rng = random.Random(seed)
+    n = 24 if tier == "quick" else 80
+    out = []
+    for i in range(n):
+        out.append(gen_map.make_script(rng, f"rf{seed}_{i}", kind="map-drop", clone_ops=True, faults=rng.choice([0.15, 0.3]),
+                                       arms=["clonepanic_nth", "clonepanic_nth", "hashpanic_nth", "refuse_nth"]))
+    return "".join(out)
+
 def check_c03(run):
     return script_property(
-        run, lambda tier, seed, v: gen_map_scripts(tier, seed, v) + gen_table_scripts(tier, seed + 1, v) + gen_clone_scripts(tier, seed + 2, v),
+        run, lambda tier, seed, v: gen_map_scripts(tier, seed, v) + gen_table_scripts(tier, seed + 1, v) + gen_clone_scripts(tier, seed + 2, v) + gen_release_fault_scripts(tier, seed + 3, v),
         relevant=lambda f: f.kind == "CRASH" or (f.kind == "H-FAIL" and any(k in f.text for k in LEAKY)),
-        rule="HashMap / HashTable / clone-family histories with drop-tracked elements (every key and value object carries a serial number in a registry) and the ledger allocator: after EVERY operation each object ever created must be stored in a collection, held by the caller, or dropped exactly once; a second drop of a serial, a stored object that was already dropped, a release with a different layout than the request, and anything still alive or allocated after the collections are dropped are findings; leaving routes exercised: remove, overwrite, clear, retain, extract_if, drain (0, some, all consumed), shrink, clone_from into occupied targets, drop; allocator events are also compared in order with the extracted model")
+        rule="HashMap / HashTable / clone-family histories with drop-tracked elements (every key and value object carries a serial number in a registry) and the ledger allocator: after EVERY operation each object ever created must be stored in a collection, held by the caller, or dropped exactly once; a second drop of a serial, a stored object that was already dropped, a release with a different layout than the request, and anything still alive or allocated after the collections are dropped are findings; leaving routes exercised: remove, overwrite, clear, retain, extract_if, drain (0, some, all consumed), into_iter / into_keys / into_values (0, some, all consumed; also on emptied but still allocated collections), shrink, clone_from into occupied targets, drop; interrupted operations (the k-th Clone or Hash call panics, a refused allocation) must not lose or duplicate an object either; allocator events are also compared in order with the extracted model")
 
 def check_c04(run):
     return script_property(
